@@ -157,6 +157,18 @@ def rule_cell_values(ctx):
             result = interp.call_function(model.func("cutplace.rowio._excel_cell_value"), [cell_object, 0], {}, None)
         except AbsRaise as raised:
             result = "raise " + exc_name(raised.value)
+        if ctype == "NUMBER" and float(value).is_integer() and isinstance(result, str):
+            # "whole numbers without a fractional suffix": any text for the same value without a fractional part conforms
+            # (3, 1e+16 and 10000000000000000 alike); what must not appear is a suffix of zeros after the point: "3.0" or "1.0e+16" (1.5e+20 is fine)
+            import re as _re
+
+            try:
+                same_value = float(result) == value
+            except ValueError:
+                same_value = False
+            if same_value and not _re.search(r"\.0*(e|E|$)", result):
+                return (label, "whole number without fractional suffix", "whole number without fractional suffix")
+            return (label, result, "whole number without fractional suffix (e.g. %s)" % expected)
         return (label, result, expected)
 
     decide(ctx, "O16.3", "_excel_cell_value(cell kinds)", "cutplace.rowio._excel_cell_value", cell, min_cells=len(cases))
